@@ -116,7 +116,7 @@ def run(tier):
                             workers=4, coverage=True)
     # (1b) spurious polls + close_this_sender: safety and the wake rules that are not affected
     #      by the two known defects must hold
-    jobs["mc_spur"] = dict(cfg=_cfg("mpsc_mc_spur.cfg", 2, [0, 1], ["send", "try"], 2, ["drop", "close"], [],
+    jobs["mc_spur"] = dict(cfg=_cfg("mpsc_mc_spur.cfg", 2, [0, 1] if thorough else [1], ["send", "try"], 2, ["drop", "close"], [],
                                     True, 2 if thorough else 1, False,
                                     ["C16Safety", "ImplInv", "NoSenderWaitingOnClosed", "NoRecvAsleepOnItems"]),
                            workers=4, coverage=True)
@@ -139,7 +139,7 @@ def run(tier):
     jobs["gen_b"] = dict(cfg=_cfg("mpsc_gen_b.cfg", 2, [1], ALLK if thorough else ["send", "feed"], 2, ["drop"], [],
                                   True, 1, True, ["C16Safety", "ImplInv", "Emit"], view=True),
                          workers=1, coverage=False)
-    jobs["gen_sim"] = dict(cfg=_cfg("mpsc_gen_sim.cfg", 3, [1, 2], ALLK, 2, ["drop", "close", "keep"], [2],
+    jobs["gen_sim"] = dict(cfg=_cfg("mpsc_gen_sim.cfg", 3, [0, 1, 2], ALLK, 2, ["drop", "close", "keep"], [2],
                                     True, 2, True, ["C16Safety", "ImplInv", "Emit"]),
                            workers=1, coverage=False, simulate=3000 if thorough else 400, depth=60,
                            seed_arg=vlib.seed())
@@ -150,6 +150,8 @@ def run(tier):
                               coverage=j["coverage"], simulate=j.get("simulate"), depth=j.get("depth"),
                               seed_arg=j.get("seed_arg"), tag="mpsc_" + name)
 
+    if os.environ.get("VERIF_DEV_SKIP_MC"):     # development only: conformance jobs alone
+        jobs = {k: v for k, v in jobs.items() if k.startswith("gen_")}
     results = {}
     with concurrent.futures.ThreadPoolExecutor(max_workers=3) as ex:
         for name, r in ex.map(_run, list(jobs)):
@@ -160,7 +162,7 @@ def run(tier):
                                  % (name, r.invariant, r.error_trace[-3000:]))
         if not name.startswith("gen_sim"):
             res.add_tlc(r, "MpscImpl " + name)
-    for name in ("mc_plain", "mc_spur"):
+    for name in [x for x in ("mc_plain", "mc_spur") if x in results]:
         vlib.require_coverage(results[name], ["SendTask", "RecvTask"])
 
     # ---- (2) spec -> code: replay ------------------------------------------------------
